@@ -140,7 +140,7 @@ def run_once(r):
     r.nontrivial = True
     rc0, out0, err0 = octosql(base_sql)
     if rc0 != 0:
-        r.infra("fault-free twin failed: rc=%s %s (%s)" % (rc0, err0.decode("utf-8", "replace")[-300:], base_sql))
+        r.infra("fault-free twin failed: rc=%s %s (%s)" % (rc0, simlib.norm_err(err0.decode("utf-8", "replace"))[-300:], base_sql))
         return
     r.events = out0.count(b"\n")
     sql, extra, cfg = base_sql, {}, ""
@@ -165,7 +165,7 @@ def run_once(r):
         r.log("fault: panic() at row %d: %s" % (bad, sql))
     rc, out, err = octosql(sql, extra, cfg)
     r.fault(fault)
-    r.log("faulty run: exit=%s stdout_lines=%d stderr=%s" % (rc, out.count(b"\n"), err.decode("utf-8", "replace").strip()[-160:]))
+    r.log("faulty run: exit=%s stdout_lines=%d stderr=%s" % (rc, out.count(b"\n"), simlib.norm_err(err.decode("utf-8", "replace")).strip()[-160:]))
     if rc is None:
         r.violate("C06", "hang", attrs, "octosql did not terminate within 60s after the fault (%s)" % sql)
         return
